@@ -257,6 +257,32 @@ def observe(m, o):
             except BaseException as e:  # noqa
                 outs.append({"error": repr(e)[:200]})
         return {"history": outs}
+    if k == "kernels":
+        # eager values of the array kernels on concrete inputs (compared with the translated terms of Gen/TraceGen.v)
+        from jax import numpy as jnp
+        from summer2.functions import util as U, interpolate as I
+        from summer2.runner.jax import model_impl as MI
+        res = []
+        for c in o["cases"]:
+            a = {k2: (jnp.array([num(x) for x in v]) if isinstance(v, list) else num(v)) for k2, v in c["args"].items()}
+            try:
+                if c["name"] == "binary_search_sum_ge":
+                    r = U.binary_search_sum_ge(a["x"], a["points"])
+                elif c["name"] == "piecewise_constant":
+                    r = U.piecewise_constant(a["x"], a["breakpoints"], a["values"])
+                elif c["name"] in ("linear_curve_at_x", "interpolate_linear"):
+                    xd, yd = I.get_scale_data(a["xs"]), I.get_scale_data(a["ys"])
+                    r = (I._get_linear_curve_at_x if c["name"] == "linear_curve_at_x" else I.interpolate_linear)(a["x"], xd, yd)
+                elif c["name"] == "clean_compartments":
+                    r = MI.clean_compartments(a["compartment_values"])
+                else:
+                    raise ValueError(c["name"])
+                res.append(vec(np.asarray(r)))
+            except (KeyboardInterrupt, SystemExit):
+                raise
+            except BaseException as e:  # noqa
+                res.append({"error": repr(e)[:200]})
+        return {"kernels": res}
     if k == "traced_run":
         # property C19: with SUMMER2_VERIF_TAINT=1 the jax stand-in treats jit arguments, loop carries and cond / switch
         # operands as tracers; without it this is an ordinary run and serves as the reference
